@@ -769,6 +769,12 @@ func (o Object) MarshalJSON() ([]byte, error) {
 				runtime:      o.object.runtime,
 				ArgumentList: []Value{o.value},
 			})
+			if resultVal.IsUndefined() {
+				// 15.12.3 yields undefined (a function, toJSON returning undefined): null, as for
+				// the undefined Value and for such a value inside an array (JA step 8.b)
+				result = []byte("null")
+				return
+			}
 			result = []byte(resultVal.String())
 		})
 		return result, err
